@@ -339,8 +339,16 @@ class GrammarGen:
             if k == 3:
                 return ("neg", ("lit", rnd.choice(LIT_POOL), False))
             return ("group", ("choice", [("seq", [("lit", rnd.choice(LIT_POOL), False)]), ("seq", [("eoi",)])]))
-        return ("group", ("choice", [("seq", [("lit", rnd.choice(LIT_POOL), False), ("eoi",)]),
-                                       ("seq", [("lit", rnd.choice(LIT_POOL), False)])]))
+        if r < 0.95:
+            return ("group", ("choice", [("seq", [("lit", rnd.choice(LIT_POOL), False), ("eoi",)]),
+                                           ("seq", [("lit", rnd.choice(LIT_POOL), False)])]))
+        # a body of several terminals: it can match a prefix and then fail further inside
+        def atom():
+            if rnd.random() < 0.7:
+                return ("lit", rnd.choice(LIT_POOL), False)
+            a, b = rnd.choice(RANGE_POOL)
+            return ("range", a, b)
+        return ("group", ("choice", [("seq", [atom() for _ in range(rnd.randint(2, 3))])]))
 
     def gen_seq(self, depth, i, fields_ok, fields, solid_first=False, guarded=False):
         rnd = self.rnd
@@ -426,7 +434,8 @@ class GrammarGen:
                 body = self.gen_choice(1, -1, True, fs, solid_first=True)
                 dirs = []
                 if rnd.random() < o.p_frag_dir:
-                    dirs.append(rnd.choice(["@no_skip_ws", "@no_skip_ws", "@memoize", "@position", "@string", "@export"]))
+                    dirs += rnd.sample(["@no_skip_ws", "@no_skip_ws", "@memoize", "@position", "@string", "@export"], rnd.choice([1, 1, 2]))
+                    dirs = sorted(set(dirs), key=dirs.index)
                 fr = Rule("F%d" % k, dirs=dirs, body=body)
                 self.rules.append(fr)
                 self.frags.append("F%d" % k)
@@ -470,6 +479,20 @@ class GrammarGen:
             for r in mains:
                 if "@memoize" in r.dirs and r.body[0] == "choice" and rnd.random() < 0.7:
                     r.body = ("choice", [("seq", [("field", None, False, self.probe), ("group", r.body)])])
+        # every fragment is included somewhere: an unused one is appended to the first alternative of R0
+        def uses(e, nm):
+            if isinstance(e, tuple):
+                if e[0] == "inc" and e[1] == nm:
+                    return True
+                return any(uses(x, nm) for x in e[1:])
+            if isinstance(e, list):
+                return any(uses(x, nm) for x in e)
+            return False
+        for fr in self.frags:
+            if mains and not any(uses(r.body, fr) for r in mains):
+                b = mains[0].body
+                if b[0] == "choice" and b[1] and b[1][0][0] == "seq":
+                    b[1][0][1].append(("inc", fr))
         self.rules = mains + self.rules + self.rules_leaf
         if self.user_ws:
             ws_body = ("choice", [("seq", [("clo", ("choice", [("seq", [("field", None, False, "Comment")]),
@@ -559,6 +582,13 @@ class GrammarGen:
             n = rnd.randint(lo, 3) if depth > 0 else lo
             return "".join(self.derive(e[1], depth - 1, skip) for _ in range(n))
         if k in ("neg", "pos"):
+            if rnd.random() < 0.25:
+                # text on which the lookahead's body matches a prefix and then fails (makes the parse fail later or not)
+                try:
+                    t = self.derive(e[1], 1, skip)
+                except Exception:
+                    t = ""
+                return t[:-1] if len(t) > 1 else ""
             return ""
         if k == "range":
             return self.ws(skip) + chr(rnd.randint(ord(e[1]), ord(e[2])))
